@@ -78,8 +78,14 @@ int64_t observed_value(int kind, int i, int slot, int set, int64_t n)
   // non-monotone
   return ((n * 7919 + slot * 131 + set * 17 + i * 3) % 997) - 300;
 }
+bool no_attr_series(int slot, int set)
+{
+  return slot == 2 && set == 2;  // observed through Observe(value) without attributes
+}
 std::string series_key(int slot, int set)
 {
+  if (no_attr_series(slot, set))
+    return "";
   return fmt("cb=i64:%d;s=i64:%d;", slot, set);
 }
 
@@ -137,11 +143,17 @@ void callback_fn(metrics_api::ObserverResult result, void *state)
     int64_t v = observed_value(kind, st->instr, st->slot, set, n);
     std::map<std::string, int64_t> attrs{{"cb", st->slot}, {"s", set}};
     common::KeyValueIterableView<std::map<std::string, int64_t>> view(attrs);
+    bool bare = no_attr_series(st->slot, set);
     if (nostd::holds_alternative<nostd::shared_ptr<metrics_api::ObserverResultT<int64_t>>>(result))
-      nostd::get<nostd::shared_ptr<metrics_api::ObserverResultT<int64_t>>>(result)->Observe(v, view);
+    {
+      auto &r = nostd::get<nostd::shared_ptr<metrics_api::ObserverResultT<int64_t>>>(result);
+      bare ? r->Observe(v) : r->Observe(v, view);
+    }
     else
-      nostd::get<nostd::shared_ptr<metrics_api::ObserverResultT<double>>>(result)->Observe(
-          (double)v, view);
+    {
+      auto &r = nostd::get<nostd::shared_ptr<metrics_api::ObserverResultT<double>>>(result);
+      bare ? r->Observe((double)v) : r->Observe((double)v, view);
+    }
   }
   vsim::yield();
 }
